@@ -76,3 +76,23 @@ package core
 //@ func MetaInfo.NumPieces
 //@   requires mi != nil
 //@   ensures result == len(mi.info.PieceSums)
+
+// ---- assembling a metainfo (properties C02, C01) -----------------------------------------------------
+// The metainfo carries exactly the given geometry and sums, is named after the digest, and its info
+// hash is computed from that info (bencode + sha1: not interpreted).
+//@ func assembleMetaInfo
+//@   ensures built: result1 == nil ==> result0 != nil && fresh(result0) && result0.info.Length == length && result0.info.PieceLength == pieceLength && result0.info.PieceSums == pieceSums && result0.info.Name == d.hex && result0.digest == d
+
+// A metainfo generated from a byte slice describes exactly that slice: its length, the number of
+// pieces for the piece length, and the checksum of every piece.
+//@ func NewMetaInfoFromBytes
+//@   requires len(data) <= 4611686018427387904
+//@   ensures bad_piece_length: pieceLength <= 0 ==> result1 != nil
+//@   ensures describes: result1 == nil ==> result0 != nil && result0.info.Length == len(data) && result0.info.PieceLength == pieceLength && result0.info.Name == d.hex && result0.digest == d && len(result0.info.PieceSums) == npieces(len(data), pieceLength)
+//@   ensures sums: result1 == nil ==> (forall k int :: 0 <= k && k < len(result0.info.PieceSums) ==> result0.info.PieceSums[k] == crcseg(base(data), offset(data) + k * pieceLength, plen(len(data), pieceLength, k)))
+
+// The same from a stream: the whole remaining stream is consumed.
+//@ func NewMetaInfo
+//@   requires blob != nil && 0 <= blob.pos && blob.pos <= blob.size && blob.size <= 4611686018427387904
+//@   modifies blob.pos, every io.Writer.wsrc, every io.Writer.wlo, every io.Writer.whi
+//@   ensures describes: result1 == nil ==> result0 != nil && blob.pos == blob.size && result0.info.Length == blob.size - old(blob.pos) && result0.info.PieceLength == pieceLength && result0.info.Name == d.hex && result0.digest == d && len(result0.info.PieceSums) == npieces(result0.info.Length, pieceLength)
